@@ -172,6 +172,9 @@ def simulate(case):
         leak = [[f(st[t][w]) for t in range(n)] for w in case['words']]
         a = case['amp']
         traces = [[rng.randint(-a, a) for _ in range(case['S'])] for _ in range(n)]
+        for s in case.get('const', []):          # a constant sample inside the attacked frame (its statistic is undefined: NaN results)
+            for t in range(n):
+                traces[t][s] = 0
         for wi, ss in enumerate(case['leaks']):
             for s in ss:
                 for t in range(n):
@@ -421,6 +424,8 @@ def make_case(rng, tier, cipher=None, sf=None, keysize=None, model=None, amp=Non
     for extra in slots[k:]:
         leaks[rng.randrange(k)].append(extra)
     case['leaks'] = [sorted(x) for x in leaks]
+    free = [x for x in range(S) if x not in slots]
+    case['const'] = [rng.choice(free)] if free and rng.random() < 0.4 else []
     case['amp'] = amp if amp is not None else rng.choice([0, 1, 1, 2, 2])
     case['gain'] = {'hw': rng.choice([1, 1, 2]), 'monobit': rng.choice([3, 4]), 'value': 1}[model[0]]
     case['N'] = N or (rng.choice([100, 120]) if case['amp'] >= 2 else rng.choice([80, 100, 120]))
@@ -482,7 +487,7 @@ class CampaignKind(Kind):
     def gen(self, rng, tier):
         for c in boundary(rng, tier):
             yield c
-        for _ in range(8 if tier == 'quick' else 170):
+        for _ in range(6 if tier == 'quick' else 130):
             yield make_case(rng, tier)
 
     # ------------------------------------------------------------------------------------------ driving the real code
@@ -497,6 +502,11 @@ class CampaignKind(Kind):
         return scared.HammingWeight() if m[0] == 'hw' else (scared.Monobit(m[1]) if m[0] == 'monobit' else scared.Value())
 
     def run(self, case):
+        return self.drive(case)
+
+    def drive(self, case, shared=None):
+        """One campaign on the real pipeline.  shared = {'sf', 'model'}: objects re-used from earlier campaigns of a history (the
+        attack objects then all receive that one selection function and model object); None: fresh objects everywhere."""
         import scared
         import estraces
         patch_lut_cache()
@@ -505,19 +515,25 @@ class CampaignKind(Kind):
         N, words = case['N'], case['words']
         key = np.array(case['key'], dtype='uint8')
         obs = {'traces': A['traces'], 'state': A['leak']}
-        ths = estraces.read_ths_from_ram(samples=np.array(A['traces'], dtype='int16'), plaintext=A['pt'], ciphertext=A['ct'])
+        samples = np.array(A['traces'], dtype='int16')
+        cut = case.get('split', 0)
+        pieces = [(0, N)] if not 0 < cut < N else [(0, cut), (cut, N)]      # two run() calls of every attack object on the same key
         parts = partitions_of(case)
         edges = [e / 2 for e in case['edges2']]
         results = []
+        sf = shared['sf'] if shared else self._sf(case, words)
+        model = shared['model'] if shared else self._model(case)
+        calls = [np.asarray(sf.compute_expected_key(key=key)).reshape(-1)]          # before any run
         try:
             scared.set_batch_size(case['batch'] if case['batch'] else None)
-            cont = scared.Container(ths)
-            obs['container_batch_size'] = int(cont.batch_size)
+            conts = [scared.Container(estraces.read_ths_from_ram(samples=samples[a:b], plaintext=A['pt'][a:b], ciphertext=A['ct'][a:b]))
+                     for a, b in pieces]
+            obs['container_batch_size'] = int(conts[0].batch_size)
             with warnings.catch_warnings():
                 warnings.simplefilter('ignore')
                 for att in case['attacks']:
                     k = att['cls']
-                    kw = dict(model=self._model(case), precision=case['precision'])
+                    kw = dict(model=model if shared else self._model(case), precision=case['precision'])
                     if k == 'tdpa':
                         B = sim['build']
                         w = words[att['word']]
@@ -527,22 +543,24 @@ class CampaignKind(Kind):
                                                      selection_function=self._sf(case, w), partitions=parts, **kw)
                         a.build()
                     else:
-                        kw.update(selection_function=self._sf(case, words), discriminant=getattr(scared, att['disc']))
+                        kw.update(selection_function=sf if shared else self._sf(case, words), discriminant=getattr(scared, att['disc']))
                         if k in ('anova', 'nicv', 'snr', 'mia'):
                             kw['partitions'] = parts
                         if k == 'mia':
                             kw['bin_edges'] = edges
                         a = getattr(scared, CLS[k])(**kw)
-                    a.run(cont)
+                    for cont in conts:
+                        a.run(cont)
                     results.append(a)
         finally:
             scared.set_batch_size(None)
-        # expected key and the hypothesis data, from fresh selection function objects
-        sf = self._sf(case, words)
+        # expected key (asked again, twice) and the hypothesis data, from the same selection function / model objects
         G = int(len(sf.guesses))
-        ek = np.asarray(sf.compute_expected_key(key=key)).reshape(-1)
-        obs['expected'] = [int(ek[w]) for w in words]
-        hyp = np.asarray(self._model(case)(sf(plaintext=A['pt'], ciphertext=A['ct'])))
+        calls.append(np.asarray(sf.compute_expected_key(key=key)).reshape(-1))
+        calls.append(np.asarray(sf.compute_expected_key(key=key)).reshape(-1))
+        obs['expected_calls'] = [[int(c[w]) for w in words] for c in calls]
+        obs['expected'] = obs['expected_calls'][-1]
+        hyp = np.asarray(model(sf(plaintext=A['pt'], ciphertext=A['ct'])))
         if hyp.shape != (N, G, len(words)):
             raise HarnessError(f'C17 harness: hypothesis data of shape {hyp.shape}, expected {(N, G, len(words))}')
         obs['n_guesses'] = G
@@ -635,6 +653,9 @@ class CampaignKind(Kind):
         if 'raised' in obs:
             return f'the pipeline raised {obs["raised"]}: {obs["msg"]}'
         G = obs['n_guesses']
+        if any(c != obs['expected'] for c in obs['expected_calls']):
+            return (f'compute_expected_key(key) for the same key returned {obs["expected_calls"]} (before run, after run, asked again) '
+                    f'for words {case["words"]}')
         for wi, e in enumerate(obs['expected']):
             if not 0 <= e < G:
                 return f'compute_expected_key gives {e} for word {case["words"][wi]}: not a position of the guess axis (0..{G - 1})'
@@ -660,7 +681,8 @@ class CampaignKind(Kind):
 
     def features(self, case, obs):
         f = {'cipher_sf': f'{case["cipher"]}.{case["sf"]}', 'keysize': len(case['key']), 'model': case['model'][0], 'amp': case['amp'],
-             'batch': case['batch'] or 'default', 'N': case['N'], 'precision': case['precision'], 'words': len(case['words'])}
+             'batch': case['batch'] or 'default', 'N': case['N'], 'precision': case['precision'], 'words': len(case['words']),
+             'constant_sample_in_frame': bool(case.get('const')) or case['amp'] == 0}
         if 'raised' not in obs:
             n = len(obs['attacks'])
             d = sum(1 for a in obs['attacks'] if not a['sep'])
@@ -685,6 +707,111 @@ class CampaignKind(Kind):
 _STATS = {}
 
 
+# ---------------------------------------------------------------------------------------------- campaign histories: objects re-used
+def make_history(rng, tier, n=None, keysizes=None, **kw):
+    """2-3 campaigns attacked with ONE selection function object and ONE model object: different keys (AES: different key sizes
+    too), plaintext sets, trace counts, batch sizes; in at least one campaign every attack object is run twice (two containers of
+    the same key)."""
+    base = make_case(rng, tier, **kw)
+    base['NB'] = 0
+    atts = [a for a in base['attacks'] if a['cls'] != 'tdpa']       # TemplateDPA needs words=int: another selection function object
+    keep = [a for a in atts if a['cls'] in ('cpa', 'dpa')]
+    rest = [a for a in atts if a['cls'] not in ('cpa', 'dpa')]
+    rng.shuffle(rest)
+    base['attacks'] = keep + sorted(rest[:2], key=lambda a: a['cls'])
+    n = n or rng.choice([2, 2, 3])
+    camps = []
+    twice = rng.randrange(n)
+    for i in range(n):
+        c = {k: (list(v) if isinstance(v, list) else v) for k, v in base.items()}
+        if c['cipher'] == 'aes':
+            ks = keysizes[i] if keysizes else rng.choice([16, 24, 32])
+        else:
+            ks = 8
+        c['key'] = [rng.randrange(256) for _ in range(ks)]
+        c['data_seed'] = rng.getrandbits(48)
+        c['N'] = rng.choice([100, 120]) if c['amp'] >= 2 else rng.choice([80, 100, 120])
+        c['batch'] = rng.choice([7, 50, 0])
+        c['split'] = rng.randint(30, c['N'] - 30) if (i == twice or rng.random() < 0.3) else 0
+        camps.append(c)
+    return {'campaigns': camps}
+
+
+class HistoryKind(CampaignKind):
+    name = 'history'
+    case_type = 'list camp_case'
+    check_fn = 'forallb camp_check'
+    corr_fn = 'forallb camp_wiring'
+    explain_fn = 'map camp_explain'
+    shard = 1
+    rule = ('campaign HISTORY: one selection function object and one model object (and the module-level discriminant) re-used for 2-3 '
+            'campaigns under different keys (AES: different key sizes), plaintext sets, trace counts and batch sizes; compute_expected_key '
+            'asked before the run, after it and once more in every campaign; in at least one campaign every attack object is run() twice '
+            'on two containers of the same key; every campaign certified like a single one (the expected key of campaign i must be that '
+            'of key i)')
+
+    def gen(self, rng, tier):
+        yield make_history(rng, tier, cipher='aes', sf='FirstSubBytes', model=['hw'], n=2, keysizes=[16, 16])
+        yield make_history(rng, tier, cipher='aes', sf='LastSubBytes', model=['hw'], n=3, keysizes=[16, 32, 24])
+        yield make_history(rng, tier, cipher='des', sf='FirstSboxes', n=2)
+        yield make_history(rng, tier, cipher='des', sf='LastSboxes', model=['monobit', rng.randrange(4)], n=2)
+        yield make_history(rng, tier, cipher='aes', sf='LastAddRoundKey', n=2, keysizes=[24, 16])
+        for _ in range(1 if tier == 'quick' else 36):
+            yield make_history(rng, tier)
+
+    def run(self, case):
+        c0 = case['campaigns'][0]
+        shared = {'sf': self._sf(c0, c0['words']), 'model': self._model(c0)}
+        return {'campaigns': [self.drive(c, shared) for c in case['campaigns']]}
+
+    def coq(self, case, obs):
+        if 'raised' in obs:
+            return '[]'
+        return C.coq_list([CampaignKind.coq(self, c, o) for c, o in zip(case['campaigns'], obs['campaigns'])])
+
+    def oracle(self, case, obs):
+        if 'raised' in obs:
+            return f'the pipeline raised {obs["raised"]}: {obs["msg"]}'
+        for i, (c, o) in enumerate(zip(case['campaigns'], obs['campaigns'])):
+            r = CampaignKind.oracle(self, c, o)
+            if r:
+                return (f'campaign {i + 1} of {len(case["campaigns"])} (key {bytes(c["key"]).hex()}) attacked with the selection function and model '
+                        f'objects of the earlier campaigns: {r}')
+        return None
+
+    def nontrivial(self, case, obs):
+        return 'raised' not in obs and all(any(a['sep'] for a in o['attacks']) for o in obs['campaigns'])
+
+    def tags(self, case, obs):
+        c = case['campaigns'][0]
+        return [self.name, f'{self.name}_{c["cipher"]}_{c["sf"]}']
+
+    def features(self, case, obs):
+        c0 = case['campaigns'][0]
+        f = {'cipher_sf': f'{c0["cipher"]}.{c0["sf"]}', 'campaigns': len(case['campaigns']), 'model': c0['model'][0],
+             'keysizes': '/'.join(str(len(c['key'])) for c in case['campaigns']),
+             'attack_objects_run_twice': sum(1 for c in case['campaigns'] if c.get('split'))}
+        if 'raised' not in obs:
+            for c, o in zip(case['campaigns'], obs['campaigns']):
+                CampaignKind.features(self, c, o)
+        return f
+
+    def sample(self, case, obs):
+        if 'raised' in obs:
+            return {'case': case, 'observed': obs}
+        return {'case': case, 'observed': [CampaignKind.sample(self, c, o)['observed'] for c, o in zip(case['campaigns'], obs['campaigns'])]}
+
+    def shrink(self, case):
+        cs = case['campaigns']
+        if len(cs) > 2:
+            for i in range(len(cs)):
+                for j in range(i + 1, len(cs)):
+                    yield {'campaigns': [cs[i], cs[j]]}
+        if len(cs[0]['attacks']) > 1:
+            for k in range(len(cs[0]['attacks'])):
+                yield {'campaigns': [dict(c, attacks=[c['attacks'][k]]) for c in cs]}
+
+
 def coverage_extra():
     tot = {}
     for (cls, what), n in sorted(_STATS.items()):
@@ -694,4 +821,4 @@ def coverage_extra():
                                     'discarded = it does not (nothing is asserted for that attack object and word)'}}
 
 
-KINDS = [CampaignKind()]
+KINDS = [CampaignKind(), HistoryKind()]
